@@ -471,7 +471,7 @@ func (d *c12Drv) cli(t *testing.T, r *rand.Rand, dir string) int {
 		}
 		f.Close()
 		text := bucketsText(r, toks)
-		for _, kind := range []string{"cli-hist", "cli-hist-flag", "cli-json"} {
+		for _, kind := range []string{"cli-hist", "cli-hist-flag", "cli-json", "cli-hist-flag-repeated"} {
 			out := filepath.Join(dir, fmt.Sprintf("c12out%d.%s", c, kind))
 			op := map[string]any{"op": "report", "files": []string{in}, "output": out}
 			switch kind {
@@ -481,6 +481,8 @@ func (d *c12Drv) cli(t *testing.T, r *rand.Rand, dir string) int {
 				op["type"], op["buckets"] = "hist", text
 			case "cli-json":
 				op["type"], op["buckets"] = "json", text
+			case "cli-hist-flag-repeated": // a flag given twice: the later value stands (the buckets are those of the second spec only)
+				op["args"] = []string{"-type", "hist", "-buckets", "[0,3ms,7ms]", "-buckets", text, "-output", out, in}
 			}
 			ops = append(ops, op)
 			jobs = append(jobs, job{toks, bounds, lats, kind, out})
